@@ -539,6 +539,11 @@ func (m *Manager) PruneBlocks(height uint64) {
 	m.mu.Lock()
 	defer m.mu.Unlock()
 
+	// there is nothing above the tip; start there, otherwise the first lookup
+	// fails and nothing at all is pruned
+	if tipHeight := m.tipState.Index.Height; height > tipHeight+1 {
+		height = tipHeight + 1
+	}
 	for h := height; h > 0; h-- {
 		index, ok := m.store.BestIndex(h - 1)
 		if !ok {
